@@ -482,3 +482,246 @@ def c07(run):
         raise ToolError("vacuous run: only %d renames matched anything" % run.cov["distinct_nontrivial"])
     for ln, (t, why) in sorted(bad.items()):
         run.violation("rename|" + str(why), why, json.loads(scen[ln - 1]))
+
+
+# ------------------------------------------------------------------------------------------------
+# C12 header setters
+
+@check("C12")
+def c12(run):
+    import random
+    rnd = random.Random(vlib.seed())
+    run.assumptions += ["setters are applied to a freshly parsed packet (header + question, with and without an OPT record carrying extended flags) for every initial flag word of the tier; 'rest unchanged' is a byte comparison of everything outside the field's two bytes made by the driver",
+                        "quick: 4096 initial words (all one-hot, all-but-one, seeded) x a covering set of arguments; thorough: all 65 536 initial words, every 16-bit argument against w = 0 and w = 0xffff and the tables f(w,0), f(0,a), plus a sweep of all 2^32 (w, a) pairs inside the implementation checking f(w,a) = f(w,0) | f(0,a) (the lemma TLC checks on the specification), which extends the validated tables to all pairs"]
+    run.model("MC_Header", "MC_Header.cfg")
+    cover = sorted(set([0, 0xffff, 0x87f0, 0x780f, 0x7800, 0x000f, 0x8000, 0x7fff, 0x1234, 0xabcd] + [1 << k for k in range(16)] + [0xffff ^ (1 << k) for k in range(16)]))
+    words = set(cover)
+    if quick(run):
+        while len(words) < 4096:
+            words.add(rnd.randrange(65536))
+    else:
+        words = set(range(65536))
+    scen = []
+    for w in sorted(words):
+        fa = [[a, 0] for a in cover] + [[a, 1 << k] for k in range(16) for a in (0, w ^ 0xffff)] + [[rnd.randrange(65536), rnd.randrange(65536)] for _ in range(6)]
+        if w in (0, 0xffff) and not quick(run):
+            fa = [[a, (a * 7) & 0xffff] for a in range(65536)]
+        elif w in (0, 0xffff):
+            fa += [[a, 0] for a in range(0, 65536, 17)]
+        rv = sorted(set([0, 1, 15, 16, 17, 31, 128, 240, 255] + [rnd.randrange(256) for _ in range(4)]))
+        if w in cover:
+            rv = list(range(256))
+        scen.append(json.dumps({"do": "hdr", "w": w, "tid": rnd.randrange(65536), "xfl": rnd.choice([-1, 0x8000, 0, 0xffff]),
+                                "fa": fa, "rv": rv, "ov": rv, "tv": [0, 1, 255, 256, 65535, rnd.randrange(65536)]}, separators=(",", ":")))
+    if not quick(run):
+        scen.append(json.dumps({"do": "decomp", "threads": vlib.NCPU}))
+    obs, path = vlib.drive(scen, run.wd, "hdr", watchdog=600)
+    if len(obs) != len(scen):
+        raise ToolError("driver returned %d observations for %d scenarios" % (len(obs), len(scen)))
+    bad, out = vlib.validate(path, "Trace_Header", "Trace_Header_C12.cfg", run.wd, len(obs), {"VIOLATION-C12"})
+    calls = sum(o.count("],[") + 5 for o in obs)
+    run.cov["evaluations"] += calls
+    run.cov["events"] = len(obs)
+    run.cov["initial_words"] = len(words)
+    run.cov["exhaustive_initial_words"] = not quick(run)
+    run.cov["traces_validated_against_impl"] += len(obs) - len(bad)
+    run.cov["distinct_nontrivial"] = len(obs)
+    run.cov["rule"] = "one event per initial flag word (distinct by construction), each holding the results of every setter for a vector of arguments; evaluations counts setter calls"
+    run.cov["samples"] = [vlib.shorten(o, 400) for o in vlib.sample(obs, 2)]
+    if not quick(run):
+        d = json.loads(obs[-1])
+        run.cov["pairs_swept_in_implementation"] = d.get("pairs_hi", 0) * 65536 + d.get("pairs_lo", 0)
+        run.cov["exhaustive"] = d.get("res") == "ok" and run.cov["pairs_swept_in_implementation"] == 1 << 32
+    for ln, (t, why) in sorted(bad.items()):
+        sc = json.loads(scen[ln - 1])
+        sig = "header|" + str(why).split("(")[0].split(" on ")[0]
+        run.violation(sig, why, sc)
+
+
+# ------------------------------------------------------------------------------------------------
+# C14 host names: text <-> wire
+
+@check("C14")
+def c14(run):
+    import itertools
+    import random
+    rnd = random.Random(vlib.seed())
+    run.assumptions += ["texts that the statement does not classify (63-byte labels, wire lengths 254..255, bytes >= 128, control characters) are only required not to panic and, if accepted, to give a well-formed name with the input's labels",
+                        "read-back is judged when giving the converted name to a record succeeded (a failing or panicking set_raw_name is C08/C09's business)",
+                        "the empty string is 'not a host name' for the zone clause (the library returns the root)"]
+    run.model("MC_NameText", "MC_NameText.cfg")
+    alpha = [ord(c) for c in "aB_.-7"]
+    zone = [1, 122, 2, 90, 122, 0]
+    texts = []
+    maxlen = 4 if quick(run) else 6
+    for n in range(0, maxlen + 1):
+        for t in itertools.product(alpha, repeat=n):
+            texts.append(list(t))
+    # boundary families: single labels of 58..66 bytes, totals of 236..262, many short labels
+    for ll in range(58, 67):
+        t = [120] * ll
+        texts += [t, t + [46], [119, 46] + t, t + [46, 119]]
+    for total in range(236, 263):
+        t = []
+        while len(t) + 51 <= total:
+            t += [121] * 50 + [46]
+        while len(t) < total:
+            t.append(119)
+        texts.append(t)
+        if t[-1] != 46:
+            texts.append(t + [46])
+        texts.append([97, 46] * (total // 2))
+    # other bytes: control characters, 127, 128, 129, 255, space, backslash
+    for b in (0, 9, 31, 32, 92, 127, 128, 129, 255):
+        texts += [[97, b, 98], [b], [97, 46, b, 46, 99]]
+    # random LDH names of random shape
+    for _ in range(300 if quick(run) else 20000):
+        nl = rnd.randint(1, 6)
+        t = []
+        for i in range(nl):
+            t += [rnd.choice(b"abcXYZ019-_") for _ in range(rnd.choice([1, 2, 5, 20, 61, 62, 63]))] + [46]
+        if rnd.random() < 0.5:
+            t.pop()
+        texts.append(t)
+    scen = []
+    for t in texts:
+        for z in ([], zone):
+            scen.append(json.dumps({"do": "nametext", "text": t, "zone": z}, separators=(",", ":")))
+    scen = dedupe(scen)
+    obs, path = vlib.drive(scen, run.wd, "names")
+    if len(obs) != len(scen):
+        raise ToolError("driver returned %d observations for %d scenarios" % (len(obs), len(scen)))
+    bad, out = vlib.validate(path, "Trace_Names", "Trace_Names_C14.cfg", run.wd, len(obs), {"VIOLATION-C14"})
+    facts = collections.Counter(txt for _, ln, txt in vlib.event_prints(out, "FACT"))
+    run.cov["evaluations"] += len(obs)
+    run.cov["traces_validated_against_impl"] += len(obs) - len(bad)
+    run.cov["facts"] = dict(facts)
+    run.cov["exhaustive_short_texts"] = "all strings of length <= %d over {a,B,_,.,-,7} x {no zone, zone z.Zz.}" % maxlen
+    run.cov["distinct_nontrivial"] = sum(v for k, v in facts.items() if not k.startswith("unspecified"))
+    run.cov["rule"] = "distinct (text, zone) pairs; non-trivial = the statement fixes the verdict (must-accept or must-reject)"
+    run.cov["samples"] = [vlib.shorten(o, 300) for o in vlib.sample(obs, 3)]
+    if facts.get("must-accept+readback", 0) < 50 and not bad:
+        raise ToolError("vacuous run: only %d read-backs could be observed" % facts.get("must-accept+readback", 0))
+    for ln, (t, why) in sorted(bad.items()):
+        run.violation("nametext|" + str(why), why, json.loads(scen[ln - 1]))
+
+
+# ------------------------------------------------------------------------------------------------
+# C08 / C09 / C10: mutation histories
+
+import re as _re
+import histgen
+
+RE_C10 = _re.compile(r"a failed|must fail|must report a void|larger than the maximum|exceed the size limit|malformed record text was inserted|second question was inserted|succeeded although|accepted a name the parser rejects|succeeded on a record without")
+RE_C08 = _re.compile(r"(the bytes are no longer acceptable|no longer acceptable|section offsets|offset of the EDNS|EDNS option count|EDNS version|the object says|the cached question|fresh parse|re-parsing|no longer designates|not a tombstone|does not yield the record that follows|reader|declared the bytes pointer-free|question getters|question\(\)|question_raw|cursor script did not complete)")
+
+
+def classify(why):
+    if why.startswith("panic"):
+        return {"C08", "C09", "C10"}
+    if RE_C10.search(why):
+        return {"C10"}
+    if RE_C08.search(why):
+        return {"C08"}
+    return {"C09"}
+
+
+def history_events(run, scenarios, name="hist"):
+    groups = vlib.drive_groups(scenarios)
+    if len(groups) != len(scenarios):
+        raise ToolError("driver returned %d groups for %d scenarios" % (len(groups), len(scenarios)))
+    events, owner = [], []
+    for gi, g in enumerate(groups):
+        for l in g:
+            if l.startswith('{"k":"skip"'):
+                continue
+            events.append(l)
+            owner.append(gi)
+    path = os.path.join(run.wd, name + ".ndjson")
+    with open(path, "w") as f:
+        for l in events:
+            f.write(l + "\n")
+    return events, owner, path
+
+
+def history_run(run, pid):
+    sd = vlib.seed()
+    extra = gen_s1(run, 12 if quick(run) else 200)
+    scen = histgen.histories(sd, run.tier, extra)
+    events, owner, path = history_events(run, scen)
+    bad, out = vlib.validate(path, "Trace_History", "Trace_History.cfg", run.wd, len(events), {"VIOLATION-HIST"}, shards=4)
+    facts = collections.Counter()
+    for _, ln, txt in vlib.event_prints(out, "FACT"):
+        kind, res, state = txt.split("|")
+        facts["op:" + kind] += 1
+        facts["res:" + res] += 1
+        facts["state:" + state] += 1
+        if res == "err":
+            facts["failed:" + kind] += 1
+    mine = {}
+    for ln, (t, why) in bad.items():
+        if pid == "HIST" or pid in classify(str(why)):
+            mine[ln] = ("[%s] " % "+".join(sorted(classify(str(why)))) + str(why)) if pid == "HIST" else why
+    judged = len(events) - facts.get("state:skipped", 0)
+    run.cov["evaluations"] += judged
+    run.cov["histories"] = len(scen)
+    run.cov["traces_validated_against_impl"] += judged - len(mine)
+    run.cov["steps_by_operation"] = {k[3:]: v for k, v in facts.items() if k.startswith("op:")}
+    run.cov["steps_by_result"] = {k[4:]: v for k, v in facts.items() if k.startswith("res:")}
+    run.cov["steps_by_state"] = {k[6:]: v for k, v in facts.items() if k.startswith("state:")}
+    run.cov["failed_steps_by_operation"] = {k[7:]: v for k, v in facts.items() if k.startswith("failed:")}
+    run.cov["samples"] = [vlib.shorten(scen[len(scen) // 3], 600), vlib.shorten(events[len(events) // 2], 900)]
+    for ln, why in sorted(mine.items()):
+        e = json.loads(events[ln - 1])
+        sc = json.loads(scen[owner[ln - 1]])
+        sc["ops"] = sc["ops"][: e.get("i", 0) + 1]
+        op = e.get("o", {}).get("op", "?")
+        sub = ""
+        if op == "cursor":
+            sub = ":" + "+".join(s["s"] for s in e["o"].get("subs", []))[:60] + ":" + e["o"].get("sec", "")
+        run.violation("%s%s|%s" % (op, sub, _re.sub(r"\d+", "N", str(why))[:160]), why, sc)
+    return scen, events, facts, mine
+
+
+@check("C08")
+def c08(run):
+    run.assumptions += ["'exactly one question' and 'answers only in responses' are message-level clauses a caller can break on purpose (delete the question, clear QR): acceptance of the object's bytes is judged with those two clauses lifted (Structural), and whenever they hold the real parser must accept and report the same view; maybe_compressed is compared as an implication (false => no pointer)",
+                        "the including-OPT reader exposes the OPT pseudo-record to set_raw_name, set_rr_ttl and delete; these are part of the alphabet"]
+    book_models(run)
+    scen, events, facts, mine = history_run(run, "C08")
+    run.cov["distinct_nontrivial"] = sum(v for k, v in facts.items() if k.startswith("op:cursor:") and k[10:] in ("set_raw_name", "delete", "uncompress")) + facts.get("op:insert", 0) + facts.get("op:rename", 0) + facts.get("op:insert_q", 0)
+    run.cov["rule"] = "recorded steps; non-trivial = the step can change the size or layout of the packet (set_raw_name, delete, in-place decompression, insert, rename)"
+
+
+@check("C09")
+def c09(run):
+    run.assumptions += ["the expected effect of every operation is written on the decoded message (spec/History.tla EffectWhy / SubsWhy): names byte-identical for every operation except rename, where compression intervenes and names are compared case-insensitively",
+                        "operations are also required to succeed when no stated reason for failure applies (valid name, well-formed text, room left, policy-conforming packet)"]
+    book_models(run)
+    scen, events, facts, mine = history_run(run, "C09")
+    run.cov["distinct_nontrivial"] = facts.get("res:ok", 0)
+    run.cov["rule"] = "recorded steps; non-trivial = the operation succeeded (its effect on the decoded message was compared with the specified one)"
+
+
+@check("C10")
+def c10(run):
+    run.assumptions += ["failure-inducing arguments are part of the alphabet: second question, malformed and out-of-range record text, names with a 64-byte label / a forbidden byte / truncated, operations on a deleted record's cursor, renames that overflow 255 bytes, insertions that cross 8192 bytes from every starting size including packets larger than 8192, operations that must re-parse a packet whose question was deleted or whose QR bit was cleared"]
+    book_models(run)
+    scen, events, facts, mine = history_run(run, "C10")
+    failed = {k[7:]: v for k, v in facts.items() if k.startswith("failed:")}
+    run.cov["distinct_nontrivial"] = facts.get("res:err", 0)
+    run.cov["rule"] = "recorded steps; non-trivial = the operation reported an error (the decoded message before and after was compared, and C08's predicate evaluated)"
+    need = ["insert", "insert_q", "rename"]
+    if not mine and any(failed.get(k, 0) == 0 for k in need):
+        raise ToolError("vacuous run: no failing step for one of %s (%s)" % (need, failed))
+
+
+def book_models(run):
+    pass
+
+
+@check("HIST")
+def hist_all(run):
+    """development aid (not in the manifest): all classes of history violations at once"""
+    history_run(run, "HIST")
+    run.cov["distinct_nontrivial"] = 2
